@@ -17,7 +17,7 @@ func init() {
 	register(&Property{
 		Meta: report.Meta{
 			Property:    "C18",
-			Explanation: "Error-discipline analysis (engine E6) over the stream-handling code: the set S of functions of packages container, token, delegation, invocation, envelope reachable from the exported functions that take an io.Reader / io.Writer (plus the CIDReader/CIDWriter methods) is computed on the in-module call graph; in S every call, defer or go whose callee returns an error and that is stream-related (its receiver or an argument implements io.Reader or io.Writer, or the callee is itself in S) must not lose that error: the error value must be used, every path on which it is tested non-nil must end in a failure return / false / panic or hand the error to the iterator consumer, and a deferred call may not return an error. Exemptions are a frozen table with reasons (hash.Hash.Write never fails; io.EOF ends the CAR iteration - the documented undetectable cut; calls on paths that already return an error). (R2) ldRead converts io.EOF from ReadUvarint / ReadFull into io.ErrUnexpectedEOF and only the Peek EOF propagates as a clean end; (R3) CIDReader.Read latches every non-EOF error and CID() returns it; FromSealedReader requires CID() to succeed. Independence from chunking is the contract of bufio / io.ReadFull / base64 / refmt and is not decided. (R4) no object is put back into a sync.Pool while still reachable from what the function returns (positive example under lint/testdata/canary/pool).",
+			Explanation: "Error-discipline analysis (engine E6) over the stream-handling code: the set S of functions of packages container, token, delegation, invocation, envelope reachable from the exported functions that take an io.Reader / io.Writer (plus the CIDReader/CIDWriter methods) is computed on the in-module call graph; in S every call, defer or go whose callee returns an error and that is stream-related (its receiver or an argument implements io.Reader or io.Writer, or the callee is itself in S) must not lose that error: the error value must be used, every path on which it is tested non-nil must end in a failure return / false / panic or hand the error to the iterator consumer, and a deferred call may not return an error. Exemptions are a frozen table with reasons (hash.Hash.Write never fails; io.EOF ends the CAR iteration - the documented undetectable cut; calls on paths that already return an error). (R2) ldRead converts io.EOF from ReadUvarint / ReadFull into io.ErrUnexpectedEOF and only the Peek EOF propagates as a clean end; (R3) CIDReader.Read latches every non-EOF error and CID() returns it; FromSealedReader requires CID() to succeed. Independence from chunking is the contract of bufio / io.ReadFull / base64 / refmt and is not decided. (R4) no object is put back into a sync.Pool while still reachable from what the function returns (positive example under lint/testdata/canary/pool). A function literal run by defer may store an error only into a named result of the enclosing function.",
 			Assumptions: []string{"bufio, io.ReadFull, encoding/base64 and the refmt-based codecs are correct under arbitrary chunking", "hash.Hash.Write never returns an error (documented)"},
 			Trusted:     []string{"bufio", "io", "encoding/base64", "go-ipld-prime codecs", "golang.org/x/tools/go/ssa v0.29.0"},
 			NotDecided:  []string{"chunking independence", "byte equality of streamed and buffered output (runtime values)"},
